@@ -64,7 +64,13 @@ pub fn expected_ctor(h: &Header) -> Option<Result<(), String>> {
     let bad_ratio = |r: f64| !(0.0..=1.0).contains(&r); // NaN included
     let bad_fp = |r: f64| !(r > 0.0 && r < 1.0);
     match h.kind {
-        Kind::Lru => Some(if h.sizes[0] == 0 { Err("capacity 0".into()) } else { Ok(()) }),
+        Kind::Lru => {
+            if h.random_state && !h.with_cb && h.ctor >= 1 {
+                // conversions (FromIterator / From<..>) are infallible by signature: only "no panic"
+                return None;
+            }
+            Some(if h.sizes[0] == 0 { Err("capacity 0".into()) } else { Ok(()) })
+        }
         Kind::Slru => Some(if h.sizes[0] == 0 || h.sizes[1] == 0 {
             Err("a segment size is 0".into())
         } else {
